@@ -411,6 +411,7 @@ func run(cx *lib.Ctx) {
 			res.Count("dup-trees")
 		}
 	}
+	corrParseBody(cx)
 }
 
 // hashOf identifies a source text in the distinct-case set without keeping the text.
